@@ -10,8 +10,11 @@ structure Inv (s : State) (r : List Op) : Prop where
   pend : ∀ n, (∃ m ∈ s.queue, n ∈ m.importNames) ↔ n ∈ pendingR r
   redef : s.redefOk = redefOkR r
 
-theorem step_of_err {s : State} (op : Op) (h : s.err.isSome = true) : step s op = s := by
+theorem step_of_fatal {s : State} (op : Op) (h : s.fatal = true) : step s op = s := by
   simp [step, h]
+
+theorem fatal_of_err_none {s : State} (h : s.err = none) : s.fatal = false := by
+  simp [State.fatal, h]
 
 theorem step_of_ok {s : State} (op : Op) (h : s.err = none) :
     step s op = match op with
@@ -20,12 +23,12 @@ theorem step_of_ok {s : State} (op : Op) (h : s.err = none) :
       | .setRedef b => { s with redefOk := b }
       | .link i r => link s i r
       | .call => callAll s := by
-  cases op <;> simp [step, h]
+  cases op <;> simp [step, fatal_of_err_none h]
 
-theorem runFrom_of_err {s : State} (h : List Op) (he : s.err.isSome = true) : runFrom s h = s := by
+theorem runFrom_of_fatal {s : State} (h : List Op) (he : s.fatal = true) : runFrom s h = s := by
   induction h with
   | nil => rfl
-  | cons op t ih => simp only [runFrom, List.foldl_cons, step_of_err op he]; exact ih
+  | cons op t ih => simp only [runFrom, List.foldl_cons, step_of_fatal op he]; exact ih
 
 theorem runFrom_cons (s : State) (op : Op) (t : List Op) :
     runFrom s (op :: t) = runFrom (step s op) t := rfl
@@ -34,12 +37,40 @@ theorem runFrom_append (s : State) (a b : List Op) :
     runFrom s (a ++ b) = runFrom (runFrom s a) b := by
   simp [runFrom, List.foldl_append]
 
+/-- `err` is sticky: once some call has failed it stays set (also across a survivable failed link) -/
+theorem err_some_step {s : State} (op : Op) (h : s.err.isSome = true) :
+    (step s op).err.isSome = true := by
+  unfold step
+  split
+  · exact h
+  · cases op with
+    | loadModule id ds =>
+      simp only [loadModule]
+      split
+      · rfl
+      · split
+        · rfl
+        · exact h
+    | loadExternal n a => exact h
+    | setRedef b => exact h
+    | link ifc res =>
+      simp only [link]
+      split
+      · rfl
+      · cases ifc <;> exact h
+    | call =>
+      simp only [callAll]
+      split
+      · exact h
+      · rfl
+
 theorem err_none_of_step {s : State} {op : Op} (h : (step s op).err = none) : s.err = none := by
   cases he : s.err with
   | none => rfl
   | some e =>
     have : s.err.isSome = true := by simp [he]
-    rw [step_of_err op this, he] at h; cases h
+    have := err_some_step op this
+    rw [h] at this; cases this
 
 theorem err_none_of_runFrom {s : State} {h : List Op} (he : (runFrom s h).err = none) :
     s.err = none := by
